@@ -63,6 +63,9 @@ def perform(act, sim, rec):
             os.chmod(p, act['mode'])
     elif op == 'mkdir':
         os.makedirs(p, exist_ok=True)
+    elif op == 'rmdir':
+        if os.path.isdir(p):
+            os.rmdir(p)
     elif op == 'mkfifo':
         if not os.path.lexists(p):
             os.mkfifo(p)
